@@ -100,12 +100,23 @@ func (c *localCache) Modify(ctx context.Context, name string, opts *Opts, dels [
 	//
 	var err error
 	for _, del := range dels {
-		err = c.c.DeletePrefix(ctx, name, &cache.Opts{
+		delOpts := &cache.Opts{
 			Store:    getStore(opts.Store),
 			Path:     [][]string{del}, // TODO:
 			Owner:    opts.Owner,
 			Priority: opts.Priority,
-		})
+		}
+		// config and state store keys are the plain joined path elements. A prefix delete with
+		// the path as is would also hit siblings that share the textual prefix (eth1 vs. eth10).
+		// So the value itself is deleted and then the branch below it, with the path delimiter terminated.
+		if len(del) > 0 && (opts.Store == cachepb.Store_CONFIG || opts.Store == cachepb.Store_STATE) {
+			err = c.c.DeleteValue(ctx, name, delOpts)
+			if err != nil {
+				return err
+			}
+			delOpts.Path = [][]string{append(append(make([]string, 0, len(del)+1), del...), "")}
+		}
+		err = c.c.DeletePrefix(ctx, name, delOpts)
 		if err != nil {
 			return err
 		}
